@@ -214,6 +214,38 @@ theorem cli_target_null_counterexample :
       j = .obj [("settings", .obj []), ("routines", .arr [.obj [("type", .str "ACTOR"), ("target_id", .int (-1)), ("ops", .arr [])]])]) :=
   ⟨⟨_, rfl, rfl, by decide⟩, ⟨_, rfl, rfl⟩⟩
 
+/-! ## settings -/
+
+/-- **`check_settings` lets a document through only if the settings block is complete**: an object `settings` with
+`performance_progress_list_var_name` and an object `dungeon_mode_constants` having all of `open`, `closed`, `request`,
+`open_request` (what the decompile command reads afterwards; `checkSettings_of_shape` is the converse for documented settings). -/
+theorem cli_settings_complete (kv : List (String × J)) (h : checkSettings kv = .ok ()) :
+    ∃ st dm, look kv "settings" = some (.obj st) ∧ (look st "performance_progress_list_var_name").isSome = true ∧
+      look st "dungeon_mode_constants" = some (.obj dm) ∧ (look dm "open").isSome = true ∧ (look dm "closed").isSome = true ∧
+      (look dm "request").isSome = true ∧ (look dm "open_request").isSome = true := by
+  unfold checkSettings at h
+  split at h
+  · cases h
+  · rename_i st hst
+    split at h
+    · cases h
+    · rename_i hp
+      split at h
+      · cases h
+      · rename_i dm hdm
+        split at h
+        · rename_i hall
+          simp only [Bool.and_eq_true] at hall
+          exact ⟨st, dm, hst, by rw [hp]; rfl, hdm, hall.1.1.1, hall.1.1.2, hall.1.2, hall.2⟩
+        · cases h
+      · cases h
+  · cases h
+
+/-- each of the seven parts is needed: without `open_request` the document is refused (exit 1) -/
+example : checkSettings [("settings", .obj [("performance_progress_list_var_name", .str "$P"),
+    ("dungeon_mode_constants", .obj [("open", .str "O"), ("closed", .str "C"), ("request", .str "R")])])] = .error .systemExit := by
+  decide +kernel
+
 /-! ## acceptance of documented documents -/
 
 /-- **The decompile command's reader accepts every documented routine type and argument type**: check_settings and
